@@ -140,6 +140,11 @@ def run_case(case) -> core.Outcome:
     if fam == "sum" and A.dimension is not B.dimension:
         out.invalid = True
         return out
+    if fam in ("sum", "info") and not c.sizes.determined(A, B):
+        # equal dimension but not linked by declarations (rad*furman vs sr*furman): the sum and
+        # the comparisons have no expected value
+        out.classes.append(f"{fam}:undetermined-or-out-of-range")
+        return out
     approx = fam == "info"
     base_tol = 1e-9
     ma2, mb2 = _reexpress(c, ma, A, A2, approx), _reexpress(c, mb, B, B2, approx)
